@@ -10,6 +10,10 @@ def dump(per_line, lines):   # loops of addMemoryDump: hex bytes, padding, chara
 STATE = 'buffer state arbitrary within the invariant (fill position <= write limit <= 4095, terminated at the fill position, one arbitrary stale byte anywhere): covers every history'
 VS = 'vsnprintf = contract model returning an arbitrary would-be length 0..INT_MAX'
 KF = ['-DKF_C14_1']
+# loops whose bound is a symbolic length: the symbolic executor cannot stop them by itself, give them their true small bound
+SYMB = ['_ZNK12SimpleString16getPrintableSizeEv.0:4', '_ZNK12SimpleString9printableEv.0:4']
+FS = ['--max-field-sensitivity-array-size', '168']
+NULLS = {'00': '', '01': ', actual NULL', '10': ', expected NULL', '11': ', both NULL'}
 OPS2 = 'operand strings 0..2 bytes over the full byte range, NULL-ness symbolic where the class takes pointers'
 SHOW = ['EqualsFailure(const char*)', 'EqualsFailure(SimpleString)', 'ContainsFailure', 'CheckFailure', 'ComparisonFailure', 'FailFailure', 'FeatureUnsupportedFailure']
 NUM = ['LongsEqualFailure', 'UnsignedLongsEqualFailure', 'LongLongsEqualFailure', 'UnsignedLongLongsEqualFailure', 'SignedBytesEqualFailure']
@@ -32,14 +36,25 @@ SPEC = {
             [ob('harness_report_%d_%d' % (k, c), bounds=('cleared buffer' if c else STATE + ', fill position <= lowered limit [KF_C14_1]') + '; start, %d leak(s) of 0..2 bytes each with any allocator kind, file name <= 2 bytes, any number/line, stop; ' % k + VS,
                 unwindset=dump(2, 1), timeout=900, solver='kissat', tier=('thorough' if k == 3 else 'both')) for k in range(4) for c in range(2)],
     }, {
-        'name': 'msg', 'wrapper': 'w14m.cpp', 'harness': 'h14m.c', 'config': {}, 'defines': ['-DKF_C14_2'],
+        # short messages; the marker renderer is a recording stub in the solver world (see h14m.c)
+        'name': 'msg', 'wrapper': 'w14m.cpp', 'harness': 'h14m.c', 'defines': ['-DKF_C14_2', '-DMARKER_STUBBED'],
+        'config': {'stubs': ['_ZN11TestFailure27createDifferenceAtPosStringERK12SimpleStringmm']},
         'obligations':
-            [ob('harness_diff_%d' % k, unwind=176, timeout=1800, bounds=OPS2 + '; ' + ['CheckEqualFailure', 'StringEqualFailure', 'StringEqualNoCaseFailure'][k] + ' [KF_C14_2: shown forms differ]') for k in range(3)] +
-            [ob('harness_show_%d' % k, unwind=(150 if k == 9 else 64), timeout=900, bounds=OPS2 + ', user text 0..1 byte; ' + SHOW[k - 3]) for k in range(3, 10)] +
-            [ob('harness_binary', unwind=176, timeout=1800, bounds='blocks of 0..2 bytes, any bytes, NULL-ness symbolic, differing within the size; BinaryEqualFailure')] +
-            [ob('harness_number_%d' % k, unwind=100, timeout=900, bounds='both operands any 64-bit value; ' + NUM[k]) for k in range(5)] +
-            [ob('harness_bits', unwind=64, timeout=900, bounds='operands and mask any 64-bit value, byteCount 1; BitsEqualFailure')] +
-            [ob('harness_doubles', unwind=100, timeout=900, bounds='operands and threshold any double incl. NaN and infinities; DoublesEqualFailure')] +
+            [ob('harness_diff_%d_%s' % (k, nn), unwind=64, unwindset=SYMB, timeout=900,
+                bounds=OPS2 + '; ' + ['CheckEqualFailure', 'StringEqualFailure', 'StringEqualNoCaseFailure'][k] + NULLS[nn] + (' [KF_C14_2: shown forms differ]' if nn == '00' else ''))
+             for k, nn in [(0, '00'), (1, '00'), (1, '01'), (1, '10'), (2, '00'), (2, '01'), (2, '10')]] +
+            [ob('harness_binary_%s' % nn, unwind=64, unwindset=SYMB, timeout=900, bounds='blocks of 0..2 arbitrary bytes, differing within the size; BinaryEqualFailure' + NULLS[nn]) for nn in ('00', '01', '10')] +
+            [ob('harness_show_%d_%s' % (k, nn), unwind=64, unwindset=SYMB, timeout=900, bounds=OPS2 + ', user text 0..1 byte; ' + SHOW[k - 3] + NULLS[nn])
+             for k, nn in [(3, '00'), (3, '01'), (3, '10'), (3, '11'), (4, '00'), (5, '00'), (6, '00'), (7, '00'), (8, '00')]] +
+            [ob('harness_bits', unwind=64, unwindset=SYMB, timeout=900, bounds='operands and mask any 64-bit value, byteCount 1; BitsEqualFailure')] +
             [ob('harness_where', unwind=32, bounds='file name 0..2 bytes, any line')],
+    }, {
+        # long messages: 168-byte heap objects
+        'name': 'long', 'wrapper': 'w14m.cpp', 'harness': 'h14m.c', 'defines': ['-DKF_C14_2', '-DENV_MALLOC_CAP=168'], 'config': {},
+        'obligations':
+            [ob('harness_marker', unwind=170, unwindset=SYMB, timeout=1800, cbmc_flags=FS, bounds='shown text any 0..4 bytes, offset 0..length, reported position any 64-bit value; createDifferenceAtPosString')] +
+            [ob('harness_show_9_00', unwind=170, unwindset=SYMB, timeout=1800, cbmc_flags=FS, bounds=OPS2 + ', user text 0..1 byte; FeatureUnsupportedFailure')] +
+            [ob('harness_number_%d' % k, unwind=170, unwindset=SYMB, timeout=1800, cbmc_flags=FS, bounds='both operands any 64-bit value; ' + NUM[k]) for k in range(5)] +
+            [ob('harness_doubles', unwind=170, unwindset=SYMB, timeout=1800, cbmc_flags=FS, bounds='operands and threshold any double incl. NaN and infinities; DoublesEqualFailure')],
     }],
 }
